@@ -121,6 +121,49 @@ pub fn p_actions() -> Profile {
     }
 }
 
+/// Everything at once: several rule sets, right contexts, `$`, multi-byte characters, `_`,
+/// class differences, exact built-ins, all action kinds; generate_specs additionally factors
+/// `let`s, duplicates rules and adds keyword shapes for this profile. Feature interactions are
+/// where the remaining defects hide.
+pub fn p_sink() -> Profile {
+    let mut re = ReParams::basic(&['a', 'b', 'c', 'é', '京', '\n']);
+    re.w_any = 2;
+    re.w_diff = 2;
+    re.w_builtin = 1;
+    re.builtins = vec!["ascii_lowercase", "ascii_digit", "whitespace"];
+    re.size = 8;
+    Profile {
+        name: "sink",
+        re,
+        sets: (1, 4),
+        rules: (1, 5),
+        ctx_pct: 30,
+        eoi_pct: 15,
+        kinds: KindMix::mixed(),
+        unnamed_pct: 15,
+        allow_empty_sets: true,
+    }
+}
+
+pub fn sink_adjust(spec: &mut Spec, r: &mut TestRunner) {
+    let t = sample(&gen::tape_strategy(80), r);
+    let sel = t.first().copied().unwrap_or(0);
+    let rest = t.get(1..).unwrap_or(&[]);
+    if sel % 2 == 0 {
+        gen::duplicate_rules(spec, rest);
+    }
+    if sel % 3 == 0 {
+        gen::keyword_prefixes(spec, rest, &['a', 'b', 'é']);
+    }
+    if sel % 5 < 2 {
+        gen::factor_lets(spec, rest, 25);
+        gen::reuse_vars(spec, rest, 10);
+        gen::repair_nullable(spec, 'a');
+    } else if sel % 5 == 2 && spec.named() {
+        gen::local_ctx_lets(spec);
+    }
+}
+
 // ---------------------------------------------------------------------------------------------
 // Case plans
 
@@ -243,7 +286,7 @@ impl Prop for C01 {
         Some("C01")
     }
     fn profiles(&self, tier: Tier) -> Vec<(Profile, usize)> {
-        vec![(p_rewind(), tier.pick(320, 4000)), (p_ctx(), tier.pick(80, 1000))]
+        vec![(p_rewind(), tier.pick(320, 4000)), (p_ctx(), tier.pick(80, 1000)), (p_sink(), tier.pick(60, 800))]
     }
     fn adjust_spec(&self, mut spec: Spec, r: &mut TestRunner) -> Spec {
         // several rules matching the same lexemes (with different contexts): ties and fall-through
@@ -373,7 +416,7 @@ impl Prop for C03 {
         lit.re.w_char = 10;
         lit.re.size = 3;
         lit.re.depth = 2;
-        vec![(p_sets(), tier.pick(200, 2500)), (lit, tier.pick(120, 1500))]
+        vec![(p_sets(), tier.pick(200, 2500)), (lit, tier.pick(120, 1500)), (p_sink(), tier.pick(60, 800))]
     }
     fn cases(&self, ctx: &SpecCtx, _c: &mut Compiled, r: &mut TestRunner, tier: Tier) -> Vec<Case> {
         cases_from(ctx, r, &std_plan(tier, true))
@@ -482,7 +525,7 @@ impl Prop for C05 {
         Some("C05")
     }
     fn profiles(&self, tier: Tier) -> Vec<(Profile, usize)> {
-        vec![(p_eoi(), tier.pick(300, 3500))]
+        vec![(p_eoi(), tier.pick(300, 3500)), (p_sink(), tier.pick(60, 800))]
     }
     fn cases(&self, ctx: &SpecCtx, _c: &mut Compiled, r: &mut TestRunner, tier: Tier) -> Vec<Case> {
         // every prefix of the guided inputs: the input ends at every possible point
@@ -632,7 +675,7 @@ impl Prop for C06 {
         rw.kinds.cont = 2;
         rw.kinds.skip = 1;
         rw.sets = (1, 1);
-        vec![(p_unicode(), tier.pick(200, 2500)), (rw, tier.pick(150, 2000))]
+        vec![(p_unicode(), tier.pick(200, 2500)), (rw, tier.pick(150, 2000)), (p_sink(), tier.pick(60, 800))]
     }
     fn cases(&self, ctx: &SpecCtx, _c: &mut Compiled, r: &mut TestRunner, tier: Tier) -> Vec<Case> {
         let mut cs = cases_from(ctx, r, &std_plan(tier, true));
@@ -708,7 +751,7 @@ impl Prop for C07 {
         d.re.w_any = 3;
         d.re.w_set = 5;
         d.kinds.fscript = 4;
-        vec![(f, tier.pick(200, 2500)), (c, tier.pick(80, 1200)), (d, tier.pick(60, 800))]
+        vec![(f, tier.pick(200, 2500)), (c, tier.pick(80, 1200)), (d, tier.pick(60, 800)), (p_sink(), tier.pick(60, 800))]
     }
     fn cases(&self, ctx: &SpecCtx, _c: &mut Compiled, r: &mut TestRunner, tier: Tier) -> Vec<Case> {
         cases_from(ctx, r, &std_plan(tier, true))
@@ -755,7 +798,7 @@ impl Prop for C08 {
         p.kinds.script = 3;
         p.rules = (1, 4);
         p.allow_empty_sets = false;
-        vec![(p, tier.pick(320, 3500))]
+        vec![(p, tier.pick(320, 3500)), (p_sink(), tier.pick(60, 800))]
     }
     fn cases(&self, ctx: &SpecCtx, _c: &mut Compiled, r: &mut TestRunner, tier: Tier) -> Vec<Case> {
         let mut plan = std_plan(tier, true);
@@ -818,6 +861,7 @@ impl Prop for C09 {
             (p_eoi(), n),
             (p_unicode(), n),
             (p_actions(), n),
+            (p_sink(), n),
         ]
     }
     fn cases(&self, ctx: &SpecCtx, _c: &mut Compiled, r: &mut TestRunner, tier: Tier) -> Vec<Case> {
@@ -925,7 +969,7 @@ impl Prop for C10 {
         acc.kinds.skip = 3;
         acc.kinds.rcont = 3;
         acc.sets = (1, 2);
-        vec![(p_actions(), tier.pick(200, 2500)), (acc, tier.pick(140, 1500))]
+        vec![(p_actions(), tier.pick(200, 2500)), (acc, tier.pick(140, 1500)), (p_sink(), tier.pick(60, 800))]
     }
     fn cases(&self, ctx: &SpecCtx, _c: &mut Compiled, r: &mut TestRunner, tier: Tier) -> Vec<Case> {
         cases_from(ctx, r, &std_plan(tier, true))
@@ -972,7 +1016,7 @@ impl Prop for C14 {
         "C14"
     }
     fn profiles(&self, tier: Tier) -> Vec<(Profile, usize)> {
-        vec![(p_unicode(), tier.pick(160, 2000)), (p_actions(), tier.pick(120, 1500))]
+        vec![(p_unicode(), tier.pick(160, 2000)), (p_actions(), tier.pick(120, 1500)), (p_sink(), tier.pick(60, 800))]
     }
     fn cases(&self, ctx: &SpecCtx, _c: &mut Compiled, r: &mut TestRunner, tier: Tier) -> Vec<Case> {
         let mut plan = std_plan(tier, true);
